@@ -212,7 +212,7 @@ class OrthoCase:
             raise Violation(PROP, 'exception',
                             'pipeline/' + type(ex).__name__, d)
         finally:
-            simmp.reap_all()
+            simmp.collect()
         rng = stream(op.get('sched_seed', 0), 'subset')
         idx = list(range(N))
         rng.shuffle(idx)
